@@ -263,7 +263,10 @@ pub fn alphabet() -> Vec<ST> {
     let t1 = quoted(a.clone(), p.clone(), b1.clone());
     let t2 = quoted(a.clone(), p.clone(), l_en.clone());
     let t3 = quoted(t1.clone(), p.clone(), l_en2.clone());
-    vec![a, b, p, b1, b2, l_en, l_en2, l_str, l_int, l_u, v, t1, t2, t3]
+    // (the same tag / datatype with another lexical form: ordered containers tell them apart by the text only)
+    let m_en = lit_lang("m", "en");
+    let l_int2 = lit_dt("2", &format!("{XSD}integer"));
+    vec![a, b, p, b1, b2, l_en, l_en2, l_str, l_int, l_u, v, t1, t2, t3, m_en, l_int2]
 }
 
 pub struct Cfg {
